@@ -15,6 +15,7 @@ CONSTANTS
   BinOps <- OpsAll
   CastTys <- AllCasts
   TyNames <- TyAll
+  Prelude <- NoPrelude
   MaxD = 3
   MaxN = 5
   MaxStk = 2
